@@ -133,8 +133,11 @@ CLAIMED.update({
                 "operations are characterised exactly; an uncounted re-read of the address just read leaves the whole cache state "
                 "unchanged (the single-cycle display re-read). Tied to the code by comparing directory, counters and penalties after "
                 "every operation; the implementation is also compared with an independent reference cache in the harness, and the "
-                "data-cache counters of single-cycle and five-stage runs of the same program are compared (this program-level clause "
-                "is decided differentially, not proved).",
+                "data-cache counters of single-cycle and five-stage runs of the same program are compared. Program level "
+                "(Props/C09Programs.v): pipe_single_same_dcache — for every supported program and every cache configuration the "
+                "five-stage run ends with EXACTLY the data memory system of the single-cycle run (directory, dirty bits, replacement "
+                "state, lower memory, access and hit counters); dcache_counts_loads_stores / counters_both_modes — the access counter "
+                "grows by the number of executed loads and stores, in both modes.",
         "note": NOTE_COMMON + "Replacement-policy correctness is property C10; rejected accesses are outside the accounting claim.",
         "technique": TECH,
     },
@@ -147,7 +150,9 @@ CLAIMED.update({
                 "every step); directly: results with and without the cache, counters against a reference cache fed the fetch addresses, "
                 "one fetch per executed instruction in single-cycle mode, and no stale block or counter after load_program.",
         "note": NOTE_COMMON + "Program level: Props/C11Programs.v proves that with any instruction cache both modes produce the identical "
-                "outcome (run end incl. fault record, architectural state, latches and retire trace) as without (icache_program_single/pipe).",
+                "outcome (run end incl. fault record, architectural state, latches and retire trace) as without (icache_program_single/pipe); "
+                "Props/C11Accounting.v: the access counter grows by exactly one per executed instruction (single-cycle) / per fetch (pipeline), "
+                "counters equal the reference cache's along the run's fetch addresses, cycles = steps + penalties x misses (both modes, faults included).",
         "technique": TECH,
     },
 })
@@ -167,8 +172,9 @@ CLAIMED.update({
                 "cycle-by-cycle correspondence of cycles/stalls/flushes/latches with the model (with caches), and decided on the "
                 "implementation directly: retire cycles vs the recurrence on the implementation's own single-cycle trace (exhaustive "
                 "hazard alphabet up to length 3/4 + random programs), the cycle law with caches, n+4.",
-        "note": NOTE_COMMON + "pipe_schedule is stated for flat memory without instruction cache; with caches the step count is the same "
-                "(Props/C03Programs.v: latches equal) and the cycle counter adds the penalties by the cycle law.",
+        "note": NOTE_COMMON + "Props/C07SchedCaches.v (pipe_schedule_caches) extends it to every cache configuration: same retire steps, and "
+                "cycles = cycles0 + steps + ipen x instruction-cache misses + dpen x data-cache misses. The Coq recurrence is compared with "
+                "the Python recurrence on every case (op 80).",
         "technique": "Coq proof of the retire schedule (timing invariant on top of the refinement invariant) and of the cycle law + implementation vs schedule recurrence, exhaustive small scope + random",
     },
     "C08": {
@@ -180,13 +186,15 @@ CLAIMED.update({
                 "dep_free_pad2 — two nops behind every instruction make ANY program dependency-free; and the general characterisation "
                 "flagoff_is_dwb_noecall_partial — for every supported program WITHOUT ecall and no dependency hypothesis the flag-off "
                 "pipeline equals the delayed-write-back reference machine dwb_run (operands from the register file two slots ago, three "
-                "bubbles after a redirect), incl. stale reads, faults, wrong-path slots. Props/C08.v: no decode stall is ever raised with "
-                "the flag off, reads happen after the same cycle's write-back, the flag never changes. NOT proved: the delayed-write-back "
-                "characterisation for programs with ecall (checked by closed computation on examples and differentially). Tied to the code "
-                "by cycle-by-cycle correspondence (flag off) and decided on the implementation against the delayed-write-back reference "
-                "interpreter (retire order and cycles, registers, memory, output), nop-padded programs vs single-cycle mode, no ID stall.",
-        "note": NOTE_COMMON + "flagoff_is_dwb (with ecall) is stated in Props/C08DelayedWB.v but only its ecall-free part is closed.",
-        "technique": "Coq refinement proofs (lock step with the interlocked pipeline on dependency-free programs; delayed-write-back machine for ecall-free programs) + implementation vs delayed-write-back reference interpreter",
+                "bubbles after a redirect), incl. stale reads, faults, wrong-path slots; Props/C08DelayedWBFull.v closes it for ALL supported "
+                "programs incl. ecall (flagoff_is_dwb: an ecall drains and then sees every older write). Props/C08Sched.v: retire cycles "
+                "with the flag off follow the hazard-free recurrence (dependency-free programs incl. ecall; all ecall-free programs). "
+                "Props/C08.v: no decode stall is ever raised with the flag off, reads happen after the same cycle's write-back, the flag "
+                "never changes. Tied to the code by cycle-by-cycle correspondence (flag off); the Coq reference dwb_run itself is compared "
+                "with the Python reference interpreter on every case (op 81); decided on the implementation against that interpreter "
+                "(retire order and cycles, registers, memory, output), nop-padded programs vs single-cycle mode, no ID stall.",
+        "note": NOTE_COMMON + "Timing with the flag off for programs that contain ecall AND stale dependencies is proved only up to flagoff_schedule_noecall_partial / flagoff_schedule_depfree.",
+        "technique": "Coq refinement proofs (lock step with the interlocked pipeline on dependency-free programs; delayed-write-back reference machine for all supported programs) + implementation vs delayed-write-back reference interpreter",
     },
     "C13": {
         "text": "Props/C13.v proves for the single-cycle, five-stage and TOY models, for ALL states: done is stable (step and run return the "
